@@ -335,6 +335,22 @@ func genC19(g *Rng, tier string) *Plan {
 			c19Step{Op: "sso", SP: 1, Cookie: "slot", Slot: -1, Bind: "redirect"})
 	}
 	if g.Bool(0.15) {
+		// targeted: a service name moves to an entity ID that a later-named service carries already; the entity ID it had is gone
+		u := Pick(g, c19Users...)
+		ver++
+		a, b := g.Intn(2), 0
+		b = 1 - a
+		lo, hi := "s0", "s2"
+		if g.Bool(0.3) {
+			lo, hi = hi, lo
+		}
+		steps = append(steps, c19Step{Op: "seed_user", User: u, Pw: "set", Ver: ver},
+			c19Step{Op: "put_service", Svc: lo, SP: a}, c19Step{Op: "put_service", Svc: hi, SP: b}, c19Step{Op: "put_service", Svc: lo, SP: b},
+			c19Step{Op: "login", User: u, Pw: "right"},
+			c19Step{Op: "sso", SP: a, Cookie: "slot", Slot: -1, Bind: "redirect"},
+			c19Step{Op: "sso", SP: b, Cookie: "slot", Slot: -1, Bind: Pick(g, "redirect", "post")})
+	}
+	if g.Bool(0.15) {
 		// targeted: a provider with two endpoints is used IdP-initiated and then by a request that names no endpoint; every later
 		// restart must continue with the same choice of endpoint
 		u := Pick(g, c19Users...)
